@@ -80,6 +80,20 @@ Example C15_example_bridge :
   pden 0 0 t = [(2004, 1004); (2004, 1004); (1004, 4); (1005, 5); (1005, 5)].
 Proof. vm_compute. split; reflexivity. Qed.
 
+(* join functions answering nil for SOME elements (value 2) and otherwise a TakeWhile cut by a non-monotone
+   predicate before the end of its input (a later element satisfies it again): Join and ToSeq *)
+Example C15_example_nil_between :
+  let t := PJoinE (PWhen (OnVal (PNe 2)) (PTakeW (OnVal (PMod 2 1)) (PFromSeq FSPair (SShift [0; 2; 1; 4]))))
+                  (PFromSeq FSPair (SSlice [1; 2; 3])) in
+  prun 100 t = Some [(1001, 1); (1003, 3); (1003, 3); (1005, 5)] /\
+  pden 0 0 t = [(1001, 1); (1003, 3); (1003, 3); (1005, 5)].
+Proof. vm_compute. split; reflexivity. Qed.
+
+Example C15_example_nil_between_toseq :
+  let t := SToSeqE (SWhen (OnKey (PIn [1001; 1004])) (SShift [0; 5])) (PFromSeq FSPair (SSlice [1; 2; 3; 4])) in
+  srun 100 t = Some [1; 6; 4; 9] /\ sden 0 0 t = [1; 6; 4; 9].
+Proof. vm_compute. split; reflexivity. Qed.
+
 Example C15_example_foreach :
   prun_foreach 100 (fun k e => if Z.eqb (snd e) 2 then Some 55 else None)
                (PFromSeq FSPair (SSlice [1; 2; 3])) = Some ([(1001, 1); (1002, 2)], Some 55).
